@@ -1,6 +1,8 @@
 package props
 
 import (
+	"os"
+	"strings"
 	"unicode/utf16"
 
 	"github.com/yorkie-team/yorkie/pkg/document"
@@ -43,6 +45,17 @@ func makeGuard(g Guards, v *Vetoed) func(w *sim.World, ri int, e *gen.Edit) bool
 
 // makeGuardDoc is makeGuard for a bare Document.
 func makeGuardDoc(g Guards, v *Vetoed) func(d *document.Document, e *gen.Edit) bool {
+	// VERIF_UNFENCED names fences to switch off ("rga", "arrset"); a tooling switch used
+	// once to harvest the pinned witnesses of the recorded findings, never set by a
+	// registered command.
+	if u := os.Getenv("VERIF_UNFENCED"); u != "" {
+		if strings.Contains(u, "rga") {
+			g.InsertBeforeTombstone = false
+		}
+		if strings.Contains(u, "arrset") {
+			g.ArrSetMoved = false
+		}
+	}
 	return func(d *document.Document, e *gen.Edit) bool {
 		root := d.Root()
 		c, err := gen.Resolve(root, e.Path)
